@@ -446,7 +446,7 @@ pub fn run_fault_worker(spec: &Spec, w: usize, nw: usize) -> WorkerOut {
                         }
                         if let Some((oracle, msg, step)) = v {
                             let class = classify_fault(&prog, &hist, i, &oracle, &msg);
-                            let sig = if class == oracle { format!("{}:{}:{}", spec.id, oracle, prog.name) } else { format!("{}:{}", spec.id, class) };
+                            let sig = format!("{}:{}:{}", spec.id, class, prog.name);
                             if viol_sigs.insert(sig.clone()) {
                                 out.viols.push(Viol {
                                     property: spec.id.to_string(),
@@ -527,7 +527,8 @@ pub fn run_worker(spec: &Spec, w: usize, nw: usize) -> WorkerOut {
                 }
                 if let Some((oracle, msg, step)) = r.viol {
                     let classified = oracle.starts_with("cycle-") || oracle.starts_with("stale-cycle") || oracle.starts_with("fallback-participant") || oracle.starts_with("specified-to-computed") || oracle.starts_with("struct-read-locked") || oracle.starts_with("deleted-struct-slot");
-                    let sig = if classified { format!("{}:{}", spec.id, oracle) } else { format!("{}:{}:{}", spec.id, oracle, prog.name) };
+                    let _ = classified;
+                    let sig = format!("{}:{}:{}", spec.id, oracle, prog.name);
                     if viol_sigs.insert(sig.clone()) {
                         out.viols.push(Viol {
                             property: spec.id.to_string(),
